@@ -318,7 +318,11 @@ impl<'a> Gen<'a> {
             "hello", " ", "\n", "<p>", "</p>", "<div class=\"x\">", "&amp;", "&", "'", "\"", "world", "  ", "\n\n",
             "{", "}", "%}", "}}", "#}", "{ {", "a < b", "1 > 0", "-", "=", "/", "<!-- c -->", "\t", "x", "0",
         ];
-        const UNI: &[&str] = &["\u{e9}", "\u{1F389}", "\u{fc}ber", "\u{4e2d}\u{6587}", "\u{c2}\u{a9}", "\u{ae}", "\u{b0}C", "\u{b1}1", "a\u{300}"];
+        const UNI: &[&str] = &[
+            "\u{e9}", "\u{1F389}", "\u{fc}ber", "\u{4e2d}\u{6587}", "\u{c2}\u{a9}", "\u{ae}", "\u{b0}C", "\u{b1}1", "a\u{300}",
+            // non-ASCII white space and CRLF right where whitespace control trims
+            "\u{a0}", "\u{2003}", "\u{3000}", "\r\n", " \r\n ", "\u{a0} ", " \u{2003}",
+        ];
         let n = self.rng.range(1, 5);
         let mut t = String::new();
         if self.rng.chance(1, 4) {
